@@ -8,4 +8,5 @@ ASSUMPTIONS = ['inductive step from an arbitrary pre-state: share values > 0, sh
 
 def tasks(tier):
     n = 40 if tier == 'quick' else 1000
-    return [(f'{op}', wrapper_task(op, 'C16', n)) for op in OPS if goals_for(op, OpPre, ('C16',))]
+    from specs.flows import flow_task, FLOWS
+    return [(f'{op}', wrapper_task(op, 'C16', n)) for op in OPS if goals_for(op, OpPre, ('C16',))] + [(f'flow:{x}', flow_task(x, ('C16',))) for x in FLOWS]
